@@ -211,7 +211,7 @@ def sample_hands(seed: int, count: int):
         size = decl[2] if decl[2] else (rng.randint(1, 4) if 'Badugi' in tn else 1)
         pair = []
         for _j in range(2):
-            mode = rng.choice(['valid', 'valid', 'valid', 'size', 'dup', 'foreign'])
+            mode = rng.choice(['valid', 'valid', 'valid', 'size', 'dup', 'foreign', 'unknown'])
             k = size
             if mode == 'size':
                 k = max(0, size + rng.choice([-1, 1, 2]))
@@ -221,6 +221,15 @@ def sample_hands(seed: int, count: int):
             cs = rng.sample(pool, min(k, len(pool)))
             if mode == 'dup' and cs:
                 cs[-1] = cs[0]
+            if mode == 'unknown' and cs:
+                # cards that are not real cards: suit unknown (the rank kept), rank unknown, or both - one of
+                # them, or all of them (five cards 'of one suit')
+                how = rng.choice(['suit', 'suit', 'rank', 'both'])
+                idx = range(len(cs)) if rng.random() < 0.4 else [rng.randrange(len(cs))]
+                for j in idx:
+                    c = cs[j]
+                    cs[j] = Card(c.rank if how == 'suit' else impl.Rank.UNKNOWN,
+                                 c.suit if how == 'rank' else impl.Suit.UNKNOWN)
             if _j == 1 and pair and pair[0] and rng.random() < 0.3:
                 # a relative of the first hand: ties and near-ties (the same ranks in other suits - all of one
                 # suit where possible -, the same cards in another order, one card changed)
@@ -260,7 +269,12 @@ def sample_hands(seed: int, count: int):
             expect.append(line)
             cases.append((tn, cards_text(cs), line))
             res.append(h)
-            key = pyspec.hand_key(tn, cs) if len(set(cs)) == len(cs) else None
+            key = pyspec.hand_key(tn, cs) if len(set(cs)) == len(cs) and all(cs) else None
+            if not all(cs) and h is not None:
+                viols.append(dict(property='C04', clause='unknown_rejected', signature=f'unknown:{tn}',
+                                  detail=f'{tn}({cards_text(cs)}): accepted as {line} although it contains a card '
+                                         f'that is not a real card (unknown rank or suit)',
+                                  input=(tn, cards_text(cs))))
             if len(set(cs)) == len(cs) and all(c in deck for c in cs):
                 if (key is None) != (h is None):
                     viols.append(dict(property='C04', clause='valid_iff', signature=f'valid:{tn}',
